@@ -12,6 +12,8 @@ import (
 	"hash/fnv"
 	"io/ioutil"
 	"math/rand"
+	"os"
+	"os/exec"
 	"path/filepath"
 	"strings"
 	"sync"
@@ -23,6 +25,7 @@ import (
 func init() {
 	register("c20-replay", c20Replay)
 	register("c20-race", c20Race)
+	register("c20-solo", c20Solo)
 }
 
 func dig(b []byte) int {
@@ -68,6 +71,17 @@ func c20Inputs() ([][]byte, error) {
 		return nil, err
 	}
 	inputs := [][]byte{clear, eb.Bytes(), prog}
+	// the kitchen sinks are expensive to build: the solo processes reuse what the first builder stored next to the instances
+	cache := ""
+	if c20InstancePath != "" {
+		cache = c20InstancePath + ".inputs.json"
+		if b, err := ioutil.ReadFile(cache); err == nil {
+			var all [][]byte
+			if json.Unmarshal(b, &all) == nil && len(all) >= 5 {
+				return all, nil
+			}
+		}
+	}
 	if c20InstancePath != "" {
 		a, b, err := c20Sinks(c20InstancePath)
 		if err != nil {
@@ -79,7 +93,51 @@ func c20Inputs() ([][]byte, error) {
 	// bytes in ONE buffer; op K passes buf[:8] (a slice with spare capacity) and buf[8:24] to the library
 	ivkey := append(append(append([]byte{}, ivClasses[5][:8]...), c20Key1...), 1, 2, 3, 4, 5, 6, 7, 8)
 	inputs = append(inputs, ivkey)
+	if cache != "" {
+		if b, err := json.Marshal(inputs); err == nil {
+			_ = ioutil.WriteFile(cache+".tmp", b, 0o644)
+			_ = os.Rename(cache+".tmp", cache)
+		}
+	}
 	return inputs, nil
+}
+
+// c20-solo: one program on private inputs in a process of its own - the reference for Q2. A fresh process has pristine
+// package-level state, so state that an EARLIER call of the replay process left behind in the library shows up as a difference.
+func c20Solo(args []string) error {
+	c20InstancePath = argValue(args, "-instances", "")
+	in, err := c20Inputs()
+	if err != nil {
+		return err
+	}
+	st := &c20State{}
+	var r []int
+	for _, op := range strings.Split(argValue(args, "-prog", ""), ",") {
+		r = append(r, c20Op(st, op, in))
+	}
+	emit(J{"type": "solo", "res": r})
+	return nil
+}
+
+func c20SoloFresh(p []string) ([]int, error) {
+	a := []string{"c20-solo", "-prog", strings.Join(p, ",")}
+	if c20InstancePath != "" {
+		a = append(a, "-instances", c20InstancePath)
+	}
+	out, err := exec.Command(os.Args[0], a...).Output()
+	if err != nil {
+		return nil, fmt.Errorf("c20-solo %v: %v", p, err)
+	}
+	for _, line := range bytes.Split(out, []byte("\n")) {
+		var o struct {
+			Type string `json:"type"`
+			Res  []int  `json:"res"`
+		}
+		if json.Unmarshal(line, &o) == nil && o.Type == "solo" {
+			return o.Res, nil
+		}
+	}
+	return nil, fmt.Errorf("c20-solo %v: no result", p)
 }
 
 // c20InstancePath: NDJSON export of BoxLayouts.tla (set from -instances).
@@ -341,16 +399,15 @@ func c20Replay(args []string) error {
 	}
 	// solo results per program (computed on private copies of the inputs)
 	solo := map[string][]int{}
+	var soloErr error
 	soloOf := func(p []string) []int {
 		k := strings.Join(p, " ")
 		if r, ok := solo[k]; ok {
 			return r
 		}
-		in := fresh()
-		st := &c20State{}
-		var r []int
-		for _, op := range p {
-			r = append(r, c20Op(st, op, in))
+		r, err := c20SoloFresh(p)
+		if err != nil {
+			soloErr = err
 		}
 		solo[k] = r
 		return r
@@ -403,6 +460,9 @@ func c20Replay(args []string) error {
 	rep.Extra["events"] = tw.N
 	rep.Extra["traces"] = tw.T
 	rep.Done()
+	if soloErr != nil {
+		return soloErr
+	}
 	if err != nil {
 		return err
 	}
@@ -443,6 +503,7 @@ func c20Race(args []string) error {
 	})
 	mismatches := 0
 	runs := 0
+	soloCache := map[string][]int{}
 	for r := 0; r < n; r++ {
 		shared := make([][]byte, len(pristine))
 		for i, b := range pristine {
@@ -453,14 +514,15 @@ func c20Race(args []string) error {
 		want := make([][]int, g)
 		for i := range sel {
 			sel[i] = progs[rng.Intn(len(progs))]
-			priv := make([][]byte, len(pristine))
-			for k, b := range pristine {
-				priv[k] = append([]byte{}, b...)
+			key := strings.Join(sel[i], " ")
+			if _, ok := soloCache[key]; !ok {
+				w, err := c20SoloFresh(sel[i]) // in a process of its own: pristine package-level state
+				if err != nil {
+					return err
+				}
+				soloCache[key] = w
 			}
-			st := &c20State{}
-			for _, op := range sel[i] {
-				want[i] = append(want[i], c20Op(st, op, priv))
-			}
+			want[i] = soloCache[key]
 		}
 		var wg sync.WaitGroup
 		var mu sync.Mutex
